@@ -115,6 +115,14 @@ def k_c20(ctx):
             ls = gen.gen_ledger(rng, events=0.05, splits=0.05, uncovered=0.02, dividends=0.1)
             ledgers.append((ls, ledger.render(ls)))
         for k, v in list(K.corpus_ledgers(gbp_only=False).items())[:8]: ledgers.append((v, ledger.render(v)))
+        # histories that go on for years: a capital return or accumulation long after an earlier disposal of the same security
+        for i in range(6):
+            ls = gen.gen_ledger(rng, events=0, splits=0, uncovered=0, dividends=0.05, nsec=1, max_year=2022)
+            t = ls[0].tick; last = max(l.date for l in ls)
+            days = K.per_day(ls, t.upper()); held = sum(x["b"] - x["s"] for x in days.values())
+            if held > 0:
+                ls = ls + [Line(last + datetime.timedelta(days=rng.choice([200, 500, 800])), t, rng.choice(["CAPRETURN", "ACCUMULATION"]), gen.dec_str(held), rng.choice(["5", "12.5"]), "GBP", None)]
+            ledgers.append((ls, ledger.render(ls)))
         answers = {}       # canonical request -> set of canonical answers seen (statelessness)
         nsess = ctx.n(24, 1200)
         for si in range(nsess):
@@ -188,6 +196,17 @@ def k_c20(ctx):
                         txt2, iserr = mcp.tool_text(rr) if rr else (None, True)
                         if rr is None or "error" in rr or iserr or json.loads(txt2)["quantity"] != q:
                             ctx.violation("explain_matching cannot explain the disposal of %s on %s that calculate_report lists: %s" % (t, d, (rr or {}).get("error")), {"ledger": params["arguments"]["transactions"], "disposal": [d, t, q], "answer": rr}, found_input=True); break
+                        # ... and explains it with the legs calculate_report lists: rule, quantity, acquisition date, cost and gain (the report shows pence)
+                        listed = [x for y in mj["tax_years"] for x in y["disposals"] if x["date"] == d and x["ticker"] == t][0]["matches"]
+                        told = json.loads(txt2)["matches"]
+                        RULES = {"SameDay": "Same Day", "BedAndBreakfast": "Bed & Breakfast", "Section104": "Section 104"}
+                        from fractions import Fraction as F
+                        def close(a, b): return abs(F(a) - F(b)) <= F(1, 200) + F(1, 10**9)
+                        same = len(listed) == len(told) and all(RULES.get(a["rule"], a["rule"]) == b["rule"] and F(a["quantity"]) == F(b["quantity"]) and a.get("acquisition_date") == b.get("acquisition_date")
+                                                               and close(a["allowable_cost"], b["allowable_cost"]) and close(a["gain_or_loss"], b["gain_or_loss"]) for a, b in zip(listed, told))
+                        if not same:
+                            ctx.violation("explain_matching explains the disposal of %s on %s with other legs than calculate_report lists" % (t, d),
+                                          {"ledger": params["arguments"]["transactions"], "disposal": [d, t, q], "calculate_report": listed, "explain_matching": told}, found_input=True); break
             else:
                 if p.returncode == 0 and params["arguments"]["transactions"].strip():
                     ctx.violation("calculate_report answers with an error where the CLI produces a report: %s" % str(a[2])[:200], {"request": params, "cli_stdout": p.stdout[:300]}, found_input=True)
